@@ -5530,7 +5530,15 @@ class RemoteBranch(branch.Branch, _RpcHelper, lock._RelockDebugMixin):
             if not self._lock_token:
                 raise SmartProtocolError("Remote server did not return a token!")
             # Tell the self.repository object that it is locked.
-            self.repository.lock_write(self._repo_lock_token, _skip_rpc=True)
+            try:
+                self.repository.lock_write(self._repo_lock_token, _skip_rpc=True)
+            except BaseException:
+                # The server holds the locks already: give them back (unless
+                # they were only borrowed through a token).
+                if token is None:
+                    self._unlock(self._lock_token, self._repo_lock_token)
+                self._lock_token = self._repo_lock_token = None
+                raise
 
             if self._real_branch is not None:
                 self._real_branch.lock_write(token=self._lock_token)
